@@ -135,7 +135,13 @@ pub fn legacy_group(g: u8) -> minecraft::LegacyGroup {
     }
 }
 
-fn unit<T>(r: GDResult<T>) -> GDResult<()> { r.map(|_| ()) }
+fn unit<T: serde::Serialize>(r: GDResult<T>) -> GDResult<serde_json::Value> {
+    r.map(|v| {
+        let mut j = serde_json::to_value(&v).unwrap_or(serde_json::Value::Null);
+        crate::util::normalise_sets(&mut j);
+        j
+    })
+}
 
 impl Entry {
     pub fn family(&self) -> Family {
@@ -199,8 +205,11 @@ impl Entry {
         }
     }
 
-    /// Call the entry point. The returned value is discarded (C01/C13 judge totality only).
-    pub fn call(&self, ip: &IpAddr, port: u16, retries: usize) -> GDResult<()> {
+    /// Call the entry point, discarding the value (C01/C13 judge totality only).
+    pub fn call(&self, ip: &IpAddr, port: u16, retries: usize) -> GDResult<()> { self.call_json(ip, port, retries).map(|_| ()) }
+
+    /// Call the entry point; the response is returned in its JSON form.
+    pub fn call_json(&self, ip: &IpAddr, port: u16, retries: usize) -> GDResult<serde_json::Value> {
         let addr = SocketAddr::new(*ip, port);
         let t = timeout(retries);
         match self {
@@ -257,7 +266,12 @@ impl Entry {
                         .set_gather_rules(toggle(r))
                         .set_check_app_id(c)
                 });
-                unit(gamedig::query_with_timeout_and_extra_settings(g, ip, Some(port), t, extra))
+                gamedig::query_with_timeout_and_extra_settings(g, ip, Some(port), t, extra)
+                    .map(|r| {
+                        let mut j = serde_json::to_value(r.as_original()).unwrap_or(serde_json::Value::Null);
+                        crate::util::normalise_sets(&mut j);
+                        j
+                    })
             }
             Entry::Module { game } => {
                 let m = module_for(game).ok_or_else(|| gamedig::GDErrorKind::InvalidInput.context("no module"))?;
